@@ -53,7 +53,7 @@ Weightwatch_Traits::get() {
 
 inline bool
 Weightwatch_Traits::less_than(const Threshold& a, const Threshold& b) {
-  return b - a < (1ULL << (sizeof_to_bits(sizeof(Threshold)) - 1));
+  return a != b && b - a < (1ULL << (sizeof_to_bits(sizeof(Threshold)) - 1));
 }
 
 inline Weightwatch_Traits::Delta
